@@ -351,7 +351,8 @@ package godi
 //@   at after assign s#1 : assert[C18,C02] identity: s.rootProvider == rootProvider && s.parentScope == parent && s.cancel == cancel
 //@   at before loop 1 : ghost inits := initializers
 //@   ensures[C15] value_xor_error: (result1 == nil) <==> (result0 != nil)
-//@   ensures[C02,C18] returns_the_new_scope: result1 == nil ==> result0 == made && fresh(result0) && result0.rootProvider == rootProvider && result0.parentScope == parent && result0.cancel == cancel
+//@   ensures[C02,C18] returns_the_new_scope: result1 == nil ==> result0 == made
+//@   ensures[C02,C18] new_scope_identity: result1 == nil ==> fresh(result0) && result0.rootProvider == rootProvider && result0.parentScope == parent && result0.cancel == cancel
 //@   ensures[C18] context_carries_scope: result1 == nil ==> result0.context != nil && ctxvalue(result0.context, box(mk("scopeContextKey"))) == box(result0)
 //@   ensures[C18] context_inherits: result1 == nil ==> ctxparent(result0.context) == ite(ctx == nil, ctxbackground(), ctx)
 //@   ensures[C02] initializers_once_in_order: result1 == nil ==> ncalls("scope.createInstance") == len(inits)
@@ -467,7 +468,10 @@ package godi
 //@   interferes
 //@   nopanic
 //@   safety[C15,C13,C09]
-//@   requires recv: p != nil && p.graph != nil && p.rootScope != nil && p.rootScope.rootProvider == p && p.analyzer != nil && ctx != nil
+//@   requires recv: p != nil && ctx != nil
+//@   requires has_graph: p.graph != nil
+//@   requires has_root_scope: p.rootScope != nil && p.rootScope.rootProvider == p
+//@   requires has_analyzer: p.analyzer != nil
 //@   requires graph_wf: wf(p.graph)
 //@   requires typed_nil_excluded: forall n *graph.Node :: {n.Provider} typeis(n.Provider, "*Descriptor") ==> as(n.Provider, "*Descriptor") != nil
 //@   ghost order []*graph.Node
@@ -533,17 +537,28 @@ package godi
 //@   requires maps: regmaps(r)
 //@   ensures[C17] copies_registrations: len(result) == len(r.allDescriptors) && (forall i int :: 0 <= i && i < len(result) ==> result[i] == r.allDescriptors[i])
 //
+//@ func collection.removeDescriptor
+//@   requires maps: regmaps(r)
+//@   safety[C15,C17]
+//@   ensures[C17] removed_from_lookup: !(typeKey in r.services)
+//@        && (forall k TypeKey :: k != typeKey ==> ((k in r.services) <==> old(k in r.services)) && r.services[k] == old(r.services[k]))
+//@   ensures[C17] absent_is_noop: !old(typeKey in r.services) ==> r.allDescriptors == old(r.allDescriptors)
+//@   ensures[C17] removed_from_build: old(typeKey in r.services) ==> !occursD(old(r.services[typeKey]), r.allDescriptors)
+//@   ensures[C17] others_kept_for_build: old(typeKey in r.services) ==> (forall i int :: 0 <= i && i < len(old(r.allDescriptors)) && old(r.allDescriptors)[i] != old(r.services[typeKey]) ==> occursD(old(r.allDescriptors)[i], r.allDescriptors))
+//@        && (forall i int :: 0 <= i && i < len(r.allDescriptors) ==> occursD(r.allDescriptors[i], old(r.allDescriptors)))
+//@   ensures[C17] groups_untouched: r.groups == old(r.groups) && (forall k GroupKey :: ((k in r.groups) <==> old(k in r.groups)) && r.groups[k] == old(r.groups[k]))
+//@   loop 1
+//@     invariant filtered: !isnil(remaining) && (forall i int :: 0 <= i && i < len(remaining) ==> remaining[i] != descriptor && (exists j int :: 0 <= j && j < idx && r.allDescriptors[j] == remaining[i]))
+//@        && (forall j int :: 0 <= j && j < idx && r.allDescriptors[j] != descriptor ==> occursD(r.allDescriptors[j], remaining))
+//@        && r.allDescriptors == old(r.allDescriptors)
 //@ func collection.Remove
 //@   requires maps: regmaps(r)
-//@   ensures[C17] nil_type_noop: t == nil ==> r.allDescriptors == old(r.allDescriptors) && (forall k TypeKey :: ((k in r.services) <==> old(k in r.services)))
-//@   ensures[C17] removed_from_lookup: t != nil ==> !(mk("TypeKey", t, nil) in r.services)
-//@        && (forall k TypeKey :: k != mk("TypeKey", t, nil) ==> ((k in r.services) <==> old(k in r.services)) && r.services[k] == old(r.services[k]))
-//@   ensures[C17] removed_from_build: t != nil && old(mk("TypeKey", t, nil) in r.services) ==> !occursD(old(r.services[mk("TypeKey", t, nil)]), r.allDescriptors)
+//@   ensures[C17] nil_type_noop: t == nil ==> ncalls("collection.removeDescriptor") == 0
+//@   ensures[C17] removes_unkeyed_identity: t != nil ==> ncalls("collection.removeDescriptor") == 1 && callarg("collection.removeDescriptor", 0, 0) == r && callarg("collection.removeDescriptor", 0, 1) == mk("TypeKey", t, nil)
 //@ func collection.RemoveKeyed
 //@   requires maps: regmaps(r)
-//@   ensures[C17] removed_from_lookup: t != nil ==> !(mk("TypeKey", t, key) in r.services)
-//@        && (forall k TypeKey :: k != mk("TypeKey", t, key) ==> ((k in r.services) <==> old(k in r.services)) && r.services[k] == old(r.services[k]))
-//@   ensures[C17] removed_from_build: t != nil && old(mk("TypeKey", t, key) in r.services) ==> !occursD(old(r.services[mk("TypeKey", t, key)]), r.allDescriptors)
+//@   ensures[C17] nil_type_noop: t == nil ==> ncalls("collection.removeDescriptor") == 0
+//@   ensures[C17] removes_keyed_identity: t != nil ==> ncalls("collection.removeDescriptor") == 1 && callarg("collection.removeDescriptor", 0, 0) == r && callarg("collection.removeDescriptor", 0, 1) == mk("TypeKey", t, key)
 //
 // ---------------------------------------------------------------------------------------------
 // Modules (C20). A ModuleOption is arbitrary code operating on the collection.
@@ -637,12 +652,11 @@ package godi
 //@        !((mk("TypeKey", d.Dependencies[i].Type, d.Dependencies[i].Key) in c.services)
 //@              && c.services[mk("TypeKey", d.Dependencies[i].Type, d.Dependencies[i].Key)] != nil
 //@              && c.services[mk("TypeKey", d.Dependencies[i].Type, d.Dependencies[i].Key)].Lifetime == Scoped)
-//@ pred noCaptiveGroup(c *collection, d *Descriptor) = forall i int, j int :: 0 <= i && i < len(d.Dependencies) && d.Dependencies[i] != nil && d.Dependencies[i].Group != ""
-//@        && 0 <= j && j < len(c.groups[mk("GroupKey", d.Dependencies[i].Type, d.Dependencies[i].Group)])
-//@        && c.groups[mk("GroupKey", d.Dependencies[i].Type, d.Dependencies[i].Group)][j] != nil ==>
-//@              c.groups[mk("GroupKey", d.Dependencies[i].Type, d.Dependencies[i].Group)][j].Lifetime != Scoped
+//@ pred membersNotScoped(l []*Descriptor) = forall j int :: 0 <= j && j < len(l) && l[j] != nil ==> l[j].Lifetime != Scoped
+//@ pred noCaptiveGroup(c *collection, d *Descriptor) = forall i int :: 0 <= i && i < len(d.Dependencies) && d.Dependencies[i] != nil && d.Dependencies[i].Group != "" ==>
+//@        membersNotScoped(c.groups[mk("GroupKey", d.Dependencies[i].Type, d.Dependencies[i].Group)])
 // checked(lt, d): every dependency of d that is found in the lifetime table is not scoped (what the code establishes)
-//@ pred checked(lt map[instanceKey]Lifetime, d *Descriptor) = forall i int :: 0 <= i && i < len(d.Dependencies) && d.Dependencies[i] != nil
+//@ pred checked(lt map[instanceKey]Lifetime, d *Descriptor) = forall i int :: 0 <= i && i < len(d.Dependencies) && d.Dependencies[i] != nil && d.Dependencies[i].Group == ""
 //@        && (mk("instanceKey", d.Dependencies[i].Type, d.Dependencies[i].Key, d.Dependencies[i].Group) in lt) ==>
 //@        lt[mk("instanceKey", d.Dependencies[i].Type, d.Dependencies[i].Key, d.Dependencies[i].Group)] != Scoped
 // tableOK(c, lt): the lifetime table holds the lifetime of every registered service under its identity
@@ -653,10 +667,17 @@ package godi
 //@   requires maps: regmaps(c) && r1(c) && r2(c)
 //@   safety[C15,C07]
 //@   ensures[C07] registry_unchanged: c.services == old(c.services) && c.groups == old(c.groups)
-//@   ensures[C07] accepted_means_no_captive_plain_dependency: result == nil ==> (forall tk TypeKey :: (tk in c.services) && longLived(c.services[tk]) ==> noCaptivePlain(c, c.services[tk]))
+//@   ghost accepted bool = false
+//@   at before return#8 : ghost accepted := true
+//@   ensures[C07] nil_only_after_full_check: result == nil ==> accepted
+//@   at before return#8 : assert[C07] accepted_means_no_captive_plain_dependency: (forall tk TypeKey :: (tk in c.services) && longLived(c.services[tk]) ==> noCaptivePlain(c, c.services[tk]))
 //@        && (forall gk GroupKey, m int :: (gk in c.groups) && 0 <= m && m < len(c.groups[gk]) && longLived(c.groups[gk][m]) ==> noCaptivePlain(c, c.groups[gk][m]))
-//@   ensures[C07] accepted_means_no_captive_group_dependency: result == nil ==> (forall tk TypeKey :: (tk in c.services) && longLived(c.services[tk]) ==> noCaptiveGroup(c, c.services[tk]))
-//@        && (forall gk GroupKey, m int :: (gk in c.groups) && 0 <= m && m < len(c.groups[gk]) && longLived(c.groups[gk][m]) ==> noCaptiveGroup(c, c.groups[gk][m]))
+//@   at after loop 5 : assert[C07] group_members_not_scoped: membersNotScoped(c.groups[mk("GroupKey", dep.Type, dep.Group)])
+//@   at before return#5 : assert[C07] descriptor_fully_checked: checked(lifetimes, descriptor) && noCaptiveGroup(c, descriptor)
+//@   at after loop 6 : assert[C07] services_have_no_captive_group_dependency: forall tk TypeKey :: (tk in c.services) && longLived(c.services[tk]) ==> noCaptiveGroup(c, c.services[tk])
+//@   at after loop 7 : assert[C07] members_have_no_captive_group_dependency: forall gk GroupKey, m int :: (gk in c.groups) && 0 <= m && m < len(c.groups[gk]) && longLived(c.groups[gk][m]) ==> noCaptiveGroup(c, c.groups[gk][m])
+//@   at before return#8 : assert[C07] accepted_means_no_captive_group_dependency_of_services: forall tk TypeKey :: (tk in c.services) && longLived(c.services[tk]) ==> noCaptiveGroup(c, c.services[tk])
+//@   at before return#8 : assert[C07] accepted_means_no_captive_group_dependency_of_members: forall gk GroupKey, m int :: (gk in c.groups) && 0 <= m && m < len(c.groups[gk]) && longLived(c.groups[gk][m]) ==> noCaptiveGroup(c, c.groups[gk][m])
 //@   ensures[C07,C15] rejection_is_a_lifetime_conflict: result != nil ==> typeis(result, "*LifetimeConflictError") && as(result, "*LifetimeConflictError") != nil
 //@        && as(result, "*LifetimeConflictError").DependencyLifetime == Scoped && as(result, "*LifetimeConflictError").ServiceLifetime != Scoped
 //@   loop 1
@@ -667,16 +688,20 @@ package godi
 //@   loop 3
 //@     invariant table: lifetimes != nil && tableOK(c, lifetimes) && (groupKey in c.groups) && descriptors == c.groups[groupKey]
 //@   loop 4
-//@     invariant deps_checked: forall i int :: 0 <= i && i < idx && descriptor.Dependencies[i] != nil
+//@     invariant deps_checked: forall i int :: 0 <= i && i < idx && descriptor.Dependencies[i] != nil && descriptor.Dependencies[i].Group == ""
 //@        && (mk("instanceKey", descriptor.Dependencies[i].Type, descriptor.Dependencies[i].Key, descriptor.Dependencies[i].Group) in lifetimes) ==>
 //@        lifetimes[mk("instanceKey", descriptor.Dependencies[i].Type, descriptor.Dependencies[i].Key, descriptor.Dependencies[i].Group)] != Scoped
+//@     invariant group_deps_checked: forall i int :: 0 <= i && i < idx && descriptor.Dependencies[i] != nil && descriptor.Dependencies[i].Group != "" ==>
+//@        membersNotScoped(c.groups[mk("GroupKey", descriptor.Dependencies[i].Type, descriptor.Dependencies[i].Group)])
 //@   loop 5
-//@     invariant services_checked: forall tk TypeKey :: seen[tk] && (tk in c.services) && longLived(c.services[tk]) ==> checked(lifetimes, c.services[tk])
+//@     invariant members_so_far_not_scoped: forall j int :: 0 <= j && j < idx && c.groups[mk("GroupKey", dep.Type, dep.Group)][j] != nil ==> c.groups[mk("GroupKey", dep.Type, dep.Group)][j].Lifetime != Scoped
 //@   loop 6
-//@     invariant groups_checked: forall gk GroupKey, m int :: seen[gk] && (gk in c.groups) && 0 <= m && m < len(c.groups[gk]) && longLived(c.groups[gk][m]) ==> checked(lifetimes, c.groups[gk][m])
+//@     invariant services_checked: forall tk TypeKey :: seen[tk] && (tk in c.services) && longLived(c.services[tk]) ==> checked(lifetimes, c.services[tk]) && noCaptiveGroup(c, c.services[tk])
 //@   loop 7
-//@     invariant members_checked: forall m int :: 0 <= m && m < idx && longLived(descriptors[m]) ==> checked(lifetimes, descriptors[m])
-//@     invariant groups_checked: forall gk GroupKey, m int :: seen[gk] && (gk in c.groups) && 0 <= m && m < len(c.groups[gk]) && longLived(c.groups[gk][m]) ==> checked(lifetimes, c.groups[gk][m])
+//@     invariant groups_checked: forall gk GroupKey, m int :: seen[gk] && (gk in c.groups) && 0 <= m && m < len(c.groups[gk]) && longLived(c.groups[gk][m]) ==> checked(lifetimes, c.groups[gk][m]) && noCaptiveGroup(c, c.groups[gk][m])
+//@   loop 8
+//@     invariant members_checked: forall m int :: 0 <= m && m < idx && longLived(descriptors[m]) ==> checked(lifetimes, descriptors[m]) && noCaptiveGroup(c, descriptors[m])
+//@     invariant groups_checked: forall gk GroupKey, m int :: seen[gk] && (gk in c.groups) && 0 <= m && m < len(c.groups[gk]) && longLived(c.groups[gk][m]) ==> checked(lifetimes, c.groups[gk][m]) && noCaptiveGroup(c, c.groups[gk][m])
 //
 // ---------------------------------------------------------------------------------------------
 // Dynamic dispatch of the graph.Provider observers on a *Descriptor (Go interface-call semantics for the four one-line
@@ -712,7 +737,7 @@ package godi
 //@   at after assign p#1 : ghost built := p
 //@   at after assign p#1 : assert[C17] snapshot_of_registry: p.services != sc.services && p.groups != sc.groups
 //@        && (forall k TypeKey :: ((k in p.services) <==> (k in sc.services)) && p.services[k] == sc.services[k])
-//@        && (forall k GroupKey :: ((k in p.groups) <==> (k in sc.groups)) && len(p.groups[k]) == len(sc.groups[k]))
+//@        && (forall k GroupKey :: ((k in p.groups) <==> (k in sc.groups)) && len(p.groups[k]) == len(sc.groups[k]) && (forall i int :: 0 <= i && i < len(p.groups[k]) ==> p.groups[k][i] == sc.groups[k][i]))
 //@   at after assign p#1 : assert[C04,C01] shares_analyzer_and_graph: p.analyzer == sc.analyzer && p.graph == g && fresh(p) && p.scopes != nil && len(p.scopes) == 0 && p.disposed == 0
 //@   ensures[C15] value_xor_error: (result1 == nil) <==> (result0 != nil)
 //@   ensures[C15] failure_is_build_error: result1 != nil ==> typeis(result1, "*BuildError") && as(result1, "*BuildError") != nil
@@ -736,6 +761,12 @@ package godi
 //@        result0 == nil && ncalls("provider.Close") == 1 && callarg("provider.Close", 0, 0) == built
 //@   ensures[C15] failed_singleton_phase_is_classifiable: ncalls("provider.createAllSingletonsWithContext") == 1 && callret("provider.createAllSingletonsWithContext", 0, 0) != nil && callret("provider.Close", 0, 0) == nil ==>
 //@        as(result1, "*BuildError").Cause == callret("provider.createAllSingletonsWithContext", 0, 0)
+//@   loop 3
+//@     invariant cloned_so_far: services != nil && fresh(services) && (forall k TypeKey :: (k in services) ==> (k in sc.services) && services[k] == sc.services[k])
+//@        && (forall k TypeKey :: seen[k] ==> (k in services))
+//@   loop 4
+//@     invariant cloned_so_far: groups != nil && fresh(groups) && (forall k GroupKey :: (k in groups) ==> (k in sc.groups) && len(groups[k]) == len(sc.groups[k]) && (forall i int :: 0 <= i && i < len(groups[k]) ==> groups[k][i] == sc.groups[k][i]))
+//@        && (forall k GroupKey :: seen[k] ==> (k in groups))
 //@   loop 1
 //@     invariant frame: allDescriptors == old(sc.allDescriptors) && g != nil && wf(g)
 //@     invariant calls_ok: forall c int :: 0 <= c && c < ncalls("graph.DependencyGraph.AddProviderDeferred") ==>
